@@ -779,7 +779,7 @@ def check_lattice(case: Case, out, grads, rep, stats):
     vec = case.vec
     ulps = ulps_for(case.n)
     rinfo = {"vec": vec, "fill_seed": list(case.fill_seed), "variant": case.variant}
-    suffix = ":batch1" if case.n == 1 else ""
+    suffix = ""  # one key per output whatever the batch size (the text names it)
     if case.kind == "enc":
         return check_enc(case, out, grads, rep, stats, rinfo)
     fails = []
@@ -985,7 +985,8 @@ def evaluate(rep, vectors, stats, variants_every=3, td7_cap=None):
             stats["cases"][c.variant] += 1
             if c.variant == "lattice":
                 stats["per_kind"][kind] = stats["per_kind"].get(kind, 0) + 1
-                check_lattice(c, r[0], r[1], rep, stats)
+                if not check_lattice(c, r[0], r[1], rep, stats):
+                    stats["failed"].add(canon(c.vec))
         by_id = {id(c): r for c, r in zip(cases, res)}
         for c, r in zip(cases, res):
             if c.variant in ("perturb", "perm"):
@@ -1051,19 +1052,24 @@ def finish_canaries(futs):
             raise tlc.MachineryError(f"canary: deviation '{dev}' is not refuted by {inv} (got {r.violated})")
 
 
-def binding_canary(rep, vectors):
-    """Corrupt one expected value / one realised cell and make sure the comparison notices."""
+def binding_canary(rep, vectors, failed=frozenset()):
+    """Corrupt one expected value and one expected gradient and make sure the comparison notices.  Uses vectors the real
+    code PASSED (a canary on a vector that already fails would say nothing); kinds without a passing vector are skipped -
+    the run is failing with exit 1 anyway."""
     from ..report import Report
 
     picks = {}
+    passing = {k: any(v["kind"] == k and v["n"] == 2 and canon(v) not in failed for v in vectors) for k in ("ddqn", "td3", "enc")}
     for v in vectors:
+        if canon(v) in failed:
+            continue
         if v["n"] == 2 and nontrivial(v) and len(v["alts"]) == 1 and v["kind"] in ("ddqn", "td3", "enc") and v["kind"] not in picks:
             if v["kind"] == "enc" and not (v["par"]["envterm"] and fq(v["alts"][0]["done"]) != 0):
                 continue
             if v["kind"] != "enc" and all(fq(g) == 0 for g in seq(v["alts"][0]["g1"])):
                 continue
             picks[v["kind"]] = v
-    if set(picks) != {"ddqn", "td3", "enc"}:
+    if any(passing[k] and k not in picks for k in passing) and not failed:
         raise tlc.MachineryError(f"binding canary: no suitable vectors ({sorted(picks)})")
     for kind, v in picks.items():
         bad = json.loads(json.dumps(v))
@@ -1088,7 +1094,7 @@ def binding_canary(rep, vectors):
 
 
 def new_stats():
-    return {"cases": {"lattice": 0, "noise": 0, "perturb": 0, "perm": 0}, "per_kind": {}, "ties": 0, "batch1": {}, "td7_skipped": 0}
+    return {"cases": {"lattice": 0, "noise": 0, "perturb": 0, "perm": 0}, "per_kind": {}, "ties": 0, "batch1": {}, "td7_skipped": 0, "failed": set()}
 
 
 def run(rep):
@@ -1158,7 +1164,7 @@ def run(rep):
     stats = new_stats()
     total = evaluate(rep, uniq, stats, variants_every=4 if quick else 3, td7_cap=400 if quick else 3000)
     tm["replay"] = round(time.time() - t0, 1)
-    binding_canary(rep, uniq)
+    binding_canary(rep, uniq, stats["failed"])
     tm["binding_canary"] = round(time.time() - t0, 1)
     rep.extra["cumulative_wall_s"] = tm
 
